@@ -460,12 +460,14 @@ func ruleR35(p *Prog) []Ob {
 					continue
 				}
 				handled := map[string]bool{}
+				var guardsGet []string
 				for _, hb := range m.Blocks {
 					if iff, ok := terminator(hb).(*ssa.If); ok {
 						if t, ok := classifyErrCond(iff.Cond, errV); ok && (t.kind == "eq" || t.kind == "is") {
 							for _, a := range S {
 								if a == t.target || (t.kind == "is" && ea.matchesIs(a, t.target)) {
 									handled[a] = true
+									guardsGet = append(guardsGet, p.at(iff))
 								}
 							}
 						}
@@ -482,6 +484,7 @@ func ruleR35(p *Prog) []Ob {
 					ob.Status, ob.Msg = Violated, fmt.Sprintf("the one segment Log.Get picks can report %s (it is empty), and Log.Get passes that on as the answer for the whole log: with an empty head, Get(OffsetNewest) fails although earlier segments hold messages", strings.Join(missing, ", "))
 				} else {
 					ob.Status, ob.Msg = Discharged, "the empty-segment outcome of the picked segment is classified by Log.Get before anything is returned"
+					ob.Guards = uniqSorted(guardsGet)
 				}
 				obs = append(obs, ob)
 			}
